@@ -1,27 +1,131 @@
 (* C40 — theorems (statements only; proofs are in Proofs*.v).
 
-   Reading guide.  `installed c raw mangle filter`: the three tables contain the static chains of configuration c
-   (Model.v).  EVERY OTHER chain of the tables (dispatch, per-endpoint, policy, profile, ...) is universally
-   quantified; `hep_shapes` (Shape.v, decidable, checked on the real renderer's output by every run) only says that
-   the host-endpoint dispatch chains dispatch on interfaces and that a host endpoint chain consists of conntrack
-   rules, the jump to the failsafe chain and then ANYTHING.  Verdicts are per hook (Spec.hook) for an arbitrary
-   entry mark and conntrack state; the kernel's raw -> mangle -> filter ordering is the stated assumption. *)
+   Reading guide.  `installed c raw mangle filter` / `lookup filter CH_X = Some (x c)`: the tables contain the static
+   chains of configuration c (Model.v).  EVERY OTHER chain of the tables (dispatch, per-endpoint, policy, profile ...)
+   is universally quantified; the shape conditions (Shape.v: decidable, evaluated on the real renderer's output by
+   every run, Spec.shapes_ok) only say that dispatch chains dispatch on interfaces, that a host endpoint chain is
+   conntrack rules + the jump to the failsafe chain + ANYTHING, and that the from-workload dispatch is a tree of
+   exact interface matches ending in a deny.  Verdicts are per hook (Spec.hook) for an arbitrary entry mark and
+   conntrack state; the kernel's raw -> mangle -> filter ordering is the stated assumption.
+   PARTIAL by design: NAT table, mangle POSTROUTING, Wireguard crypto routing (only its mark chain and allow rules are
+   modelled), BPF-mode raw chains, kube-ipvs paths are outside the model. *)
 From Coq Require Import List NArith Bool String.
 From Verif.Common Require Import Packet Ipt.
-From Verif.C40 Require Import Model Spec Shape Proofs ProofsFailsafe ProofsFsHooks ProofsRaw ProofsMain.
+From Verif.C40 Require Import Model Spec Shape Proofs ProofsFailsafe ProofsFsHooks ProofsRaw ProofsMain ProofsDrop
+  ProofsTunnel ProofsWlHost ProofsLink ProofsWlHost2 ProofsRefuted.
 Import ListNotations.
 Open Scope N_scope.
 
-(* Failsafes: whatever the policy chains contain, a packet to a configured inbound failsafe port (not from a workload
-   interface, conntrack state not INVALID, not governed by the tunnel clause) is not dropped by Felix at the raw
-   PREROUTING, mangle PREROUTING and filter INPUT hooks; a packet to a configured outbound failsafe port is not
-   dropped at raw OUTPUT and filter OUTPUT.  (fs_in_ok / fs_out_ok are the oracle clauses of Spec.v.)
-   c_wg_raw = false: the Wireguard incoming-mark jump of raw PREROUTING is outside the proved domain. *)
+(* 1. Failsafes: whatever the policy chains contain, a packet to a configured inbound failsafe port (not from a
+   workload interface, conntrack state not INVALID, not governed by the tunnel clause) is not dropped by Felix at the
+   raw PREROUTING (untracked), mangle PREROUTING (pre-DNAT) and filter INPUT (normal) hooks; a packet to a configured
+   outbound failsafe port is not dropped at raw OUTPUT and filter OUTPUT.  fs_in_ok / fs_out_ok are Spec.v's clauses. *)
 Theorem c40_failsafe_accept_all_paths : forall c raw mangle filter e p,
-  cfg_ok c -> c_wg_raw c = false ->
+  cfg_ok c -> N.land (c_wg_mark c) (c_scr0 c) = 0 ->
   (forall q m, e_other e (2 * O_DST_LOCAL) (set_mark q m) = e_other e (2 * O_DST_LOCAL) q) ->
   installed c raw mangle filter -> hep_shapes raw mangle filter ->
   pk_ver p = c_ver c ->
   fs_in_ok c raw mangle filter e p = true /\ fs_out_ok c raw filter e p = true.
 Proof. exact failsafe_accept_all_paths. Qed.
 Print Assumptions c40_failsafe_accept_all_paths.
+
+(* the hypothesis "conntrack state not INVALID" is necessary *)
+Theorem c40_failsafe_invalid_ct_refuted :
+  exists c filter e p, cfg_ok c
+    /\ (forall nb, In nb (static_filter c) -> lookup filter (fst nb) = Some (snd nb))
+    /\ hep_disp_ok filter CH_FROM_HEP CH_FS_IN = true
+    /\ pk_ver p = c_ver c /\ fs_in_pkt c p = true /\ wl_iface c (pk_in p) = false /\ fs_excluded c e p = false
+    /\ ct_invalid p = true
+    /\ hook filter e CH_INPUT p = VDrop
+    /\ hook filter e CH_INPUT (pkt V4 6 22 0 (pk_in p) CtNew) = VAccept.
+Proof. exact failsafe_invalid_ct_refuted. Qed.
+Print Assumptions c40_failsafe_invalid_ct_refuted.
+
+(* 2. Unknown workload interface: a packet whose input interface matches a workload prefix but is none of the
+   interfaces of the from-workload dispatch tree is dropped at filter INPUT (unless it is allow-listed infrastructure
+   traffic or one of the pre-policy special cases fires) and at filter FORWARD (provided the two chains cali-FORWARD
+   visits earlier - host-endpoint forward dispatch, to-workload dispatch - drop it or hand it back: callee_dp). *)
+Theorem c40_unknown_workload_iface_dropped : forall c filter e disp hepfwd towl p,
+  cfg_ok c ->
+  lookup filter CH_INPUT = Some (filter_input c) -> lookup filter CH_FORWARD = Some (filter_forward c) ->
+  lookup filter CH_WL_TO_HOST = Some (wl_to_host c) ->
+  lookup filter CH_FROM_WL = Some disp -> wl_root_ok filter disp = true ->
+  lookup filter CH_FROM_HEP_FWD = Some hepfwd -> (forall n, callee_dp filter e (I_unk c filter disp) (S n) hepfwd) ->
+  lookup filter CH_TO_WL = Some towl -> (forall n, callee_dp filter e (I_unk c filter disp) (S n) towl) ->
+  wl_iface c (pk_in p) = true -> name_in (pk_in p) (wl_names filter disp) = false ->
+  (pre_rules_miss c e p -> infra_allowed c e p = false -> hook filter e CH_INPUT p = VDrop)
+  /\ hook filter e CH_FORWARD p = VDrop.
+Proof. exact unknown_workload_iface_dropped. Qed.
+Print Assumptions c40_unknown_workload_iface_dropped.
+
+(* both side conditions are necessary (known findings wl-to-host-pre-policy-accepts,
+   unknown-wl-established-accepted-early) *)
+Theorem c40_unknown_iface_nd_refuted :
+  exists c filter e p disp, cfg_ok c
+    /\ (forall nb, In nb (static_filter c) -> lookup filter (fst nb) = Some (snd nb))
+    /\ lookup filter CH_FROM_WL = Some disp /\ wl_root_ok filter disp = true
+    /\ pk_ver p = c_ver c /\ wl_iface c (pk_in p) = true /\ name_in (pk_in p) (wl_names filter disp) = false
+    /\ infra_allowed c e p = false /\ pre_policy_exempt c p = true
+    /\ hook filter e CH_INPUT p = VAccept.
+Proof. exact unknown_iface_nd_refuted. Qed.
+Print Assumptions c40_unknown_iface_nd_refuted.
+
+Theorem c40_unknown_iface_forward_established_refuted :
+  exists c filter e p disp, cfg_ok c
+    /\ (forall nb, In nb (static_filter c) -> lookup filter (fst nb) = Some (snd nb))
+    /\ lookup filter CH_FROM_WL = Some disp /\ wl_root_ok filter disp = true
+    /\ pk_ver p = c_ver c /\ wl_iface c (pk_in p) = true /\ name_in (pk_in p) (wl_names filter disp) = false
+    /\ ct_est p = true
+    /\ hook filter e CH_FORWARD p = VAccept
+    /\ hook filter e CH_FORWARD (pkt V4 6 80 0 (pk_in p) CtNew) = VDrop.
+Proof. exact unknown_iface_forward_established_refuted. Qed.
+Print Assumptions c40_unknown_iface_forward_established_refuted.
+
+(* 2'. the INPUT half in Spec.v's vocabulary: not allow-listed infrastructure traffic, not a pre-policy special case *)
+Theorem c40_unknown_workload_iface_dropped_input : forall c filter e disp p,
+  cfg_ok c ->
+  lookup filter CH_INPUT = Some (filter_input c) -> lookup filter CH_WL_TO_HOST = Some (wl_to_host c) ->
+  lookup filter CH_FROM_WL = Some disp -> wl_root_ok filter disp = true ->
+  pk_ver p = c_ver c -> wl_iface c (pk_in p) = true -> name_in (pk_in p) (wl_names filter disp) = false ->
+  infra_allowed c e p = false -> pre_policy_exempt c p = false ->
+  hook filter e CH_INPUT p = VDrop.
+Proof. exact unknown_dropped_input_spec. Qed.
+Print Assumptions c40_unknown_workload_iface_dropped_input.
+
+(* 3. Workload to host: for a packet from a KNOWN workload interface (the dispatch tree sends it to chain `ch`:
+   wl_target, decidable, checked on the real chains by every run) that is neither infrastructure traffic nor a
+   pre-policy special case, the filter INPUT verdict is: whatever terminal verdict the workload's egress chain `ch`
+   reaches; and if that chain returns / falls through, the configured DefaultEndpointToHostAction.
+   (wl_host_ok false = Spec.v's clause with the pre-policy special cases excused; `body` is ARBITRARY; the only
+   assumption on it is that its evaluation needs at most 11 nested jumps.) *)
+Theorem c40_wl_to_host_policy_then_action : forall c filter e wl disp ch body p,
+  ep_action_ok (c_ep_to_host c) ->
+  lookup filter CH_INPUT = Some (filter_input c) -> lookup filter CH_WL_TO_HOST = Some (wl_to_host c) ->
+  lookup filter CH_FROM_WL = Some disp ->
+  lookup_wl wl (pk_in p) = Some ch -> wl_target filter disp (pk_in p) = Some ch -> lookup filter ch = Some body ->
+  G filter e 11 body p <> RFuel ->
+  pk_ver p = c_ver c ->
+  wl_host_ok false c filter wl e p = true.
+Proof. exact wl_to_host_policy_then_action. Qed.
+Print Assumptions c40_wl_to_host_policy_then_action.
+
+(* the chain-level form, for every jump budget and without the dispatch-tree condition *)
+Theorem c40_wl_to_host_chain : forall c cs e disp n p,
+  lookup cs CH_FROM_WL = Some disp -> lookup cs CH_WL_TO_HOST = Some (wl_to_host c) ->
+  wl_iface c (pk_in p) = true -> front_miss c e p -> pre_rules_miss c e p ->
+  G cs e (S (S n)) (filter_input c) p =
+  match G cs e n disp p with
+  | RFall p' | RReturn p' => goto_wrap (G cs e (S n) [R [] (c_ep_to_host c)] p')
+  | r => r
+  end.
+Proof. intros c cs e disp n p Hd Hw. exact (wl_to_host_policy_then_action_partial c cs e disp Hd Hw n p). Qed.
+Print Assumptions c40_wl_to_host_chain.
+
+(* 4. Tunnels: with IPIP enabled an IPIP packet whose source is not in all-hosts-net, and with VXLAN enabled a UDP
+   packet to the VXLAN port of this host whose source is not in all-vxlan-net, is dropped at filter INPUT - before
+   any endpoint chain, for every entry mark (tunnel_ok is Spec.v's clause). *)
+Theorem c40_tunnel_from_non_cluster_dropped : forall c filter e p,
+  cfg_ok c -> lookup filter CH_INPUT = Some (filter_input c) ->
+  tunnel_ok c filter e p = true.
+Proof. exact tunnel_from_non_cluster_dropped. Qed.
+Print Assumptions c40_tunnel_from_non_cluster_dropped.
